@@ -893,6 +893,46 @@ M('C14', 'update_imag advances the clock by the real delta_t (round-3 seed a)', 
         # (this is done to avoid problems of users storing self.trunc_err after each `update`)
         if call_canonical_form:""", 'ACCOUNT-evolved_time')
 
+M('C15', 'eigh_rho: eigenvalues not normalised before the final rescaling (round-3 seed a)', TR,
+  """    W = W / renormalization
+    # We normalize the eigenvalues to have sum 1 to represent a valid density matrix.
+    # Truncation assumes SVs, so take square root.
+    piv, new_norm, err = truncate(np.sqrt(W), trunc_par)""", """    # We normalize the eigenvalues to have sum 1 to represent a valid density matrix.
+    # Truncation assumes SVs, so take square root.
+    piv, new_norm, err = truncate(np.sqrt(W / renormalization), trunc_par)""", 'TRUNC-scale')
+M('C15', 'eigh_rho: truncate() on the eigenvalues instead of their square roots', TR,
+  "piv, new_norm, err = truncate(np.sqrt(W), trunc_par)", "piv, new_norm, err = truncate(W, trunc_par)",
+  'TRUNC-scale')
+M('C15', 'eigh_rho: kept eigenvalues divided by new_norm instead of new_norm**2', TR,
+  "W = W[piv] / new_norm**2 * renormalization", "W = W[piv] / new_norm * renormalization", 'TRUNC-scale')
+M('C15', 'eigh_rho: final rescaling written as one factor (equivalent)', TR,
+  "W = W[piv] / new_norm**2 * renormalization", "W = W[piv] * (renormalization / new_norm**2)", None,
+  expect='silent')
+
+M('C15', 'degeneracy mask via np.diff(prepend=first) forbids cut 0 (round-3 seed b)', TR,
+  """        good2 = np.empty(len(piv), np.bool_)
+        good2[0] = True
+        good2[1:] = np.greater_equal(logS[1:] - logS[:-1], deg_tol)
+""", """        good2 = np.greater_equal(np.diff(logS, prepend=logS[0]), deg_tol)
+""", 'TRUNC-first-cut')
+M('C15', 'degeneracy mask via np.diff(prepend=-inf) (equivalent)', TR,
+  """        good2 = np.empty(len(piv), np.bool_)
+        good2[0] = True
+        good2[1:] = np.greater_equal(logS[1:] - logS[:-1], deg_tol)
+""", """        good2 = np.greater_equal(np.diff(logS, prepend=-np.inf), deg_tol)
+""", None, expect='silent')
+M('C15', 'degeneracy mask starts from np.ones (equivalent)', TR,
+  """        good2 = np.empty(len(piv), np.bool_)
+        good2[0] = True
+        good2[1:] = np.greater_equal(logS[1:] - logS[:-1], deg_tol)
+""", """        good2 = np.ones(len(piv), np.bool_)
+        good2[1:] = np.greater_equal(logS[1:] - logS[:-1], deg_tol)
+""", None, expect='silent')
+
+M('C15', '_qr_theta_Y0 drops the gauged copy (original defect)', TR,
+  "            Y0 = Y0.gauge_total_charge('vL', old_qtotal_R)", "            Y0.gauge_total_charge('vL', old_qtotal_R)",
+  'TRUNC-value-dropped')
+
 # ---------------------------------------------------------------- C16 / C19
 M('C16', 'GMRES restart: relative residual norm used for normalisation (round-3 seed b)', KRY,
   """        self.total_error.append([npc.norm(self.rs[-1]) / self.b_norm])
